@@ -2178,6 +2178,9 @@ impl Kanata {
             && self.macro_on_press_cancel_duration == 0
             && self.move_mouse_state_horizontal.is_none()
             && self.dynamic_macro_replay_state.is_none()
+            // Input processing is paused for a few ticks after some actions (rapid-event-delay);
+            // those ticks must elapse in real time, not when the next event wakes the loop.
+            && self.layout.b().oneshot.pause_input_processing_ticks == 0
             && self.caps_word.is_none()
             && self.vkeys_pending_release.is_empty()
             // A key that was output on the last tick but is no longer held by the layout (e.g. a
